@@ -126,10 +126,32 @@ def same(a, b):
     return strip_clone(a) == strip_clone(b)
 
 
-def relation_for(facts, lo, hi):
+def non_nan_facts(fn, target_block):
+    """term sets known not to be NaN on every path to target_block: the false edge of is_nan(x) or the true edge of
+    is_finite(x) dominates it"""
+    out = []
+    for pred, want_true in (('is_nan', False), ('is_finite', True)):
+        te, fe, sbs = fn.bool_edges(lambda n, pred=pred: n[0] == 'call' and n[1].endswith('<impl f64>::' + pred))
+        for sb in sbs:
+            si = fn.switch_info(sb)
+            if si is None:
+                continue
+            for n in si[0]:
+                m = n
+                while m[0] == 'unop':
+                    m = next(iter(m[2]))
+                edges = [e for e in (te if want_true else fe) if e[0] == sb]
+                if edges and target_block not in fn.reachable(0, removed=frozenset(edges)):
+                    out.append(m[2][0])
+    return out
+
+
+def relation_for(facts, lo, hi, non_nan=()):
     """intersect all facts about the ordered pair (lo, hi)"""
     rel = set(ALL)
     used = False
+    if any(same(x, lo) for x in non_nan) and any(same(x, hi) for x in non_nan):
+        rel.discard('un')
     for (a, b, r, _blk) in facts:
         if same(a, lo) and same(b, hi):
             rel &= r
@@ -188,6 +210,39 @@ def ok_blocks(fn):
     return out
 
 
+NN = [[]]
+
+
+def loop_non_nan(fn, target_block):
+    """per-element non-NaN facts: inside a loop whose header dominates target, the continuing edge of is_nan(E.k)
+    is the false edge (every element passed `!is_nan`)"""
+    out = []
+    dom = fn.dominators()
+    for L in fn.loops():
+        h = L['header']
+        if target_block in L['body'] or h not in dom.get(target_block, ()):
+            continue
+        outside = frozenset(x for x in range(fn.nb) if x not in L['body'])
+        for pred, want_true in (('is_nan', False), ('is_finite', True)):
+            te, fe, sbs = fn.bool_edges(lambda n, pred=pred: n[0] == 'call' and n[1].endswith('<impl f64>::' + pred))
+            for sb in sbs:
+                if sb not in L['body']:
+                    continue
+                bad = [e for e in (fe if want_true else te) if e[0] == sb]     # edges on which x may be NaN
+                good = [e for e in (te if want_true else fe) if e[0] == sb]
+                # every back edge needs the good edge: removing it disconnects header -> back-edge sources
+                r = fn.reachable(h, removed=frozenset(good), stop=outside)
+                if any(src in r for (src, _d) in L['back_edges']):
+                    continue
+                si = fn.switch_info(sb)
+                for n in si[0]:
+                    m = n
+                    while m[0] == 'unop':
+                        m = next(iter(m[2]))
+                    out.append(m[2][0])
+    return out
+
+
 def run(ctx, tier):
     r_st = RuleResult('C12.stored', 'the value stored in a bounds field is the value the ordering test was made on')
     r_nan = RuleResult('C12.nan', 'the accept branch is taken only for lo < hi (NaN-rejecting) / radius >= 0')
@@ -233,6 +288,7 @@ def run(ctx, tier):
                         fty = fields.get(fname, '')
                         for (db, di, fterms) in fn.split_defs(fop, (sb, ssi)):
                             facts = cmp_facts(fn, db) + loop_elem_facts(fn, db)
+                            NN[0] = non_nan_facts(fn, db) + loop_non_nan(fn, db)
                             if fty == '(f64, f64)':
                                 # facts may also be attached to the blocks where lo / hi were computed
                                 lo = fn._field(fterms, '0')
@@ -324,7 +380,7 @@ def _check_interval(b, fn, facts, lo, hi, fname, r_st, r_nan, oi):
         if not ok:
             r_st.violations.append(Violation('C12', 'C12.stored', b.path, fname, 'constant bounds are not ordered', loc=b.loc(0), ordinal=oi))
         return
-    rel, used = relation_for(facts, lo, hi)
+    rel, used = relation_for(facts, lo, hi, NN[0])
     if not used:
         r_st.inst(desc + ' — no dominating ordering test on these very values', ok=False, site=b.loc(0))
         r_st.violations.append(Violation(
@@ -390,6 +446,16 @@ def _check_interval_vec(b, fn, facts, fterms, fname, r_st, r_nan, oi):
                         rel &= rr
                         used = True
         desc = '%s: stored %s = %s' % (b.path, fname, fmt_terms(one)[:80])
+        nn_fields = set()
+        for x in NN[0]:
+            if len(x) == 1:
+                xn = next(iter(x))
+                if xn[0] == 'field' and xn[2] in ('0', '1'):
+                    coll = _iter_elem_of(xn[1])
+                    if coll is not None and same(coll, one):
+                        nn_fields.add(xn[2])
+        if nn_fields >= {'0', '1'}:
+            rel.discard('un')
         if not used:
             r_st.inst(desc + ' — no per-element ordering test over this very vector', ok=False, site=b.loc(0))
             r_st.violations.append(Violation(
